@@ -26,19 +26,19 @@ type Sub struct {
 
 // Feat are the scenario features computed by the spec (Features in Builder.tla).
 type Feat struct {
-	NRev      int  `json:"nrev"`
-	Open      bool `json:"open"`
-	Closed    bool `json:"closed"`
-	NSub      int  `json:"nsub"`
-	MvClose   bool `json:"mvclose"`
-	CurveLoop bool `json:"curveloop"`
-	QuadFlat  bool `json:"quadflat"`
-	CubeFlat  bool `json:"cubeflat"`
-	Curves    bool `json:"curves"`
-	Arcs      bool `json:"arcs"`
-	ArcMin    bool `json:"arcmin"`
+	NRev       int  `json:"nrev"`
+	Open       bool `json:"open"`
+	Closed     bool `json:"closed"`
+	NSub       int  `json:"nsub"`
+	MvClose    bool `json:"mvclose"`
+	CurveLoop  bool `json:"curveloop"`
+	QuadFlat   bool `json:"quadflat"`
+	CubeFlat   bool `json:"cubeflat"`
+	Curves     bool `json:"curves"`
+	Arcs       bool `json:"arcs"`
+	ArcMin     bool `json:"arcmin"`
 	ArcChordRx bool `json:"arcchordrx"`
-	Spike     bool `json:"spike"`
+	Spike      bool `json:"spike"`
 }
 
 // Embeddings used for C10/C11: similarities only (arcs stay arcs with scaled radii). All but "translate" fix the
